@@ -27,6 +27,7 @@ type c10In struct {
 	Script []int `json:"script"` // per attempt: 0 nil, 1 error, 2 panic (missing = error)
 	Cancel int   `json:"cancel"` // -1, or the attempt during which the context gets cancelled
 	Cb     int   `json:"cb"`     // 0 none, 1 closed breaker around, 2 breaker forced open
+	Slow   int64 `json:"slow"`   // breaker slowCallDurationThreshold ns (0 = default 1m); only window totals are observed
 }
 
 type c10Obs struct {
@@ -90,6 +91,9 @@ func c10Run(in c10In) (obs c10Obs) {
 	var breaker *libcb.CircuitBreaker
 	if in.Cb != 0 {
 		cbp := CircuitBreakerKind.DefaultPolicy().(*CircuitBreakerPolicy)
+		if in.Slow > 0 {
+			cbp.SlowCallDurationThreshold = time.Duration(in.Slow).String()
+		}
 		w := cbp.CreateWrapper().(circuitBreakerWrapper)
 		breaker = w.CircuitBreaker
 		if in.Cb == 2 {
@@ -177,6 +181,9 @@ func c10GenFactor(r *vfRand, half bool) (int64, int64) {
 func c10Gen(r *vfRand, adv bool) (in c10In) {
 	in.Cancel = -1
 	in.Cb = r.PickInt(0, 0, 0, 1, 1, 1, 1, 2)
+	if in.Cb == 1 && r.Chance(2, 3) {
+		in.Slow = int64(r.PickInt(1_000, 100_000, 1_000_000))
+	}
 	kind := r.Intn(20)
 	switch {
 	case kind < 12: // plain: success at attempt s (s >= max: all fail)
